@@ -758,8 +758,15 @@ class FileReport:  # pylint: disable=too-many-instance-attributes
                         )
                     ) != identifier:
                         identifiers.add(plus_identifier)
-                    # Bad license
-                    if not identifiers.intersection(project.license_map):
+                    # Bad license. A LicenseRef- is never bad, even when its
+                    # text is not (yet) in LICENSES/ and it is therefore not
+                    # in the license map; that makes it missing.
+                    if not identifiers.intersection(
+                        project.license_map
+                    ) and not any(
+                        _LICENSEREF_PATTERN.match(item) and "Unknown" not in item
+                        for item in identifiers
+                    ):
                         report.bad_licenses.add(identifier)
                     # Missing license
                     if not identifiers.intersection(project.licenses):
